@@ -104,33 +104,50 @@ theorem eqTransitive_hyps (cl s) (h : eqTransitive cl = .ok s) : s.hyps = [] := 
   dsimp only at h
   rule_hyps h
 
-theorem transLoop_sound (I : Interp) (cur : Tm × Tm) (prems : List (Tm × Tm))
-    (hc : ev I cur.1 = ev I cur.2) (hp : ∀ e ∈ prems, ev I e.1 = ev I e.2) :
-    ev I (transLoop cur prems).1 = ev I (transLoop cur prems).2 := by
+theorem transLoop_sound (I : Interp) (cur : Tm × Tm) (prems : List (Nat × Tm × Tm))
+    (hu : transUsesEq cur prems = true)
+    (hc : ev I cur.1 = ev I cur.2) (hp : ∀ e ∈ prems, e.1 = 7 → ev I e.2.1 = ev I e.2.2) :
+    ev I (transLoop cur (prems.map (·.2))).1 = ev I (transLoop cur (prems.map (·.2))).2 := by
   induction prems generalizing cur with
   | nil => simpa [transLoop] using hc
   | cons e rest ih =>
-    obtain ⟨l, r⟩ := e
-    have he := hp (l, r) (by simp)
-    simp only at he
-    have hrest : ∀ e ∈ rest, ev I e.1 = ev I e.2 := fun e he' => hp e (by simp [he'])
+    obtain ⟨k, l, r⟩ := e
+    have hrest : ∀ e ∈ rest, e.1 = 7 → ev I e.2.1 = ev I e.2.2 := fun e he' => hp e (by simp [he'])
+    simp only [List.map_cons]
     unfold transLoop
+    unfold transUsesEq at hu
     split
-    · rename_i hh; have : cur.2 = l := by simpa using hh
-      exact ih _ (by simp only; rw [hc, this, he]) hrest
-    · split
-      · rename_i hh; have : cur.2 = r := by simpa using hh
-        exact ih _ (by simp only; rw [hc, this, he]) hrest
-      · split
-        · rename_i hh; have : cur.1 = l := by simpa using hh
-          exact ih _ (by simp only; rw [← hc, this, he]) hrest
-        · split
-          · rename_i hh; have : cur.1 = r := by simpa using hh
-            exact ih _ (by simp only; rw [he, ← this, hc]) hrest
-          · exact ih _ hc hrest
+    · rename_i hh; have hcl : cur.2 = l := by simpa using hh
+      simp only [hh, Bool.false_eq_true, ↓reduceIte, Bool.and_eq_true, beq_iff_eq] at hu
+      have he := hp (k, l, r) (by simp) hu.1
+      exact ih _ hu.2 (by simp only at he ⊢; rw [hc, hcl, he]) hrest
+    · rename_i h1
+      simp only [h1, Bool.false_eq_true, ↓reduceIte] at hu
+      split
+      · rename_i hh; have hcl : cur.2 = r := by simpa using hh
+        simp only [hh, Bool.false_eq_true, ↓reduceIte, Bool.and_eq_true, beq_iff_eq] at hu
+        have he := hp (k, l, r) (by simp) hu.1
+        exact ih _ hu.2 (by simp only at he ⊢; rw [hc, hcl, he]) hrest
+      · rename_i h2
+        simp only [h2, Bool.false_eq_true, ↓reduceIte] at hu
+        split
+        · rename_i hh; have hcl : cur.1 = l := by simpa using hh
+          simp only [hh, Bool.false_eq_true, ↓reduceIte, Bool.and_eq_true, beq_iff_eq] at hu
+          have he := hp (k, l, r) (by simp) hu.1
+          exact ih _ hu.2 (by simp only at he ⊢; rw [← hc, hcl, he]) hrest
+        · rename_i h3
+          simp only [h3, Bool.false_eq_true, ↓reduceIte] at hu
+          split
+          · rename_i hh; have hcl : cur.1 = r := by simpa using hh
+            simp only [hh, Bool.false_eq_true, ↓reduceIte, Bool.and_eq_true, beq_iff_eq] at hu
+            have he := hp (k, l, r) (by simp) hu.1
+            exact ih _ hu.2 (by simp only at he ⊢; rw [he, ← hcl, hc]) hrest
+          · rename_i h4
+            simp only [h4, Bool.false_eq_true, ↓reduceIte] at hu
+            exact ih _ hu hc hrest
 
 theorem destEqs_hold (I : Interp) (xs : List Tm) (es : List (Nat × Tm × Tm)) (h : destEqs xs = some es)
-    (hk : ∀ e ∈ es, e.1 = 7) (hx : ∀ x ∈ xs, tr I x) : ∀ e ∈ es, ev I e.2.1 = ev I e.2.2 := by
+    (hx : ∀ x ∈ xs, tr I x) : ∀ e ∈ es, e.1 = 7 → ev I e.2.1 = ev I e.2.2 := by
   induction xs generalizing es with
   | nil => simp [destEqs] at h; subst h; simp
   | cons x xs ih =>
@@ -138,14 +155,14 @@ theorem destEqs_hold (I : Interp) (xs : List Tm) (es : List (Nat × Tm × Tm)) (
     split at h <;> try contradiction
     rename_i d ds hd hds
     simp only [Option.some.injEq] at h; subst h
-    intro e' he'
+    intro e' he' hk7
     rcases List.mem_cons.1 he' with rfl | he'
     · obtain ⟨k, a, b⟩ := e'
-      have hk7 : k = 7 := hk (k, a, b) (by simp)
+      simp only at hk7
       rcases destEq_spec hd with ⟨h6, _⟩ | ⟨_, rfl⟩
       · omega
       · simpa using hx _ (List.mem_cons_self)
-    · exact ih ds hds (fun e he => hk e (by simp [he])) (fun y hy => hx y (by simp [hy])) e' he'
+    · exact ih ds hds (fun y hy => hx y (by simp [hy])) e' he' hk7
 
 theorem transRule_sound (I : Interp) (cl ps s) (h : transRule cl ps = .ok s)
     (hk : wellKinded .transRule cl ps = true) (hp : ∀ p ∈ ps, p.holds I) : s.holds I := by
@@ -168,17 +185,11 @@ theorem transRule_sound (I : Interp) (cl ps s) (h : transRule cl ps = .ok s)
     intro x hx
     obtain ⟨p, hpm, rfl⟩ := List.mem_map.1 hx
     exact hp p hpm (fun y hy => hh y (List.mem_flatMap.2 ⟨p, hpm, hy⟩))
-  have hk' : ∀ e ∈ (k0, l0, r0) :: rest, e.1 = 7 := by
-    simp only [wellKinded, hes] at hk
-    intro e he
-    simpa using (List.all_eq_true.1 hk) e he
-  have hall := destEqs_hold I _ _ hes hk' hprops
-  have hcur := transLoop_sound I (l0, r0) (rest.map (·.2)) (hall (k0, l0, r0) (by simp))
-    (by
-      intro e he
-      obtain ⟨e0, he0, rfl⟩ := List.mem_map.1 he
-      exact hall e0 (by simp [he0]))
-  have hk07 : k0 = 7 := hk' (k0, l0, r0) (by simp)
+  simp only [wellKinded, hes, Bool.and_eq_true, beq_iff_eq] at hk
+  obtain ⟨hk07, huse⟩ := hk
+  have hall := destEqs_hold I _ _ hes hprops
+  have hcur := transLoop_sound I (l0, r0) rest huse (hall (k0, l0, r0) (by simp) hk07)
+    (fun e he => hall e (by simp [he]))
   simp only [Bool.or_eq_true, Bool.and_eq_true, beq_iff_eq] at hacc
   obtain ⟨hka, hsides⟩ := hacc
   rcases destEq_spec harg with ⟨h6, _⟩ | ⟨_, rfl⟩
